@@ -476,27 +476,25 @@ Size(s) == CASE Family = "L" -> Cardinality(s.lst)
 Step(c) == LET d == Dispatch(st, c) IN
              /\ Size(d.st) <= MaxObj
              /\ st' = d.st /\ hist' = Append(hist, c) /\ UNCHANGED tgt
-Arm(V) == \E c \in Cmds : c.verb \in V /\ Step(c)
-
 \* one named action per dispatch arm (coverage shows which arms were taken)
-Dispatch_AddListener == Arm(AddListenerVerbs)
-Dispatch_RemoveListener == Arm({"RemoveListener"})
-Dispatch_ActivateListener == Arm({"ActivateListener"})
-Dispatch_DeactivateListener == Arm({"DeactivateListener"})
-Dispatch_UpdateListener == Arm(UpdListenerVerbs)
-Dispatch_AddCluster == Arm({"AddCluster"})
-Dispatch_RemoveCluster == Arm({"RemoveCluster"})
-Dispatch_SetHealthCheck == Arm({"SetHealthCheck"})
-Dispatch_RemoveHealthCheck == Arm({"RemoveHealthCheck"})
-Dispatch_AddBackend == Arm({"AddBackend"})
-Dispatch_RemoveBackend == Arm({"RemoveBackend"})
-Dispatch_AddFrontend == Arm({"AddHttpFrontend", "AddHttpsFrontend"})
-Dispatch_RemoveFrontend == Arm({"RemoveHttpFrontend", "RemoveHttpsFrontend"})
-Dispatch_AddCertificate == Arm({"AddCertificate"})
-Dispatch_RemoveCertificate == Arm({"RemoveCertificate"})
-Dispatch_ReplaceCertificate == Arm({"ReplaceCertificate"})
-Dispatch_AddL4Frontend == Arm({"AddTcpFrontend", "AddUdpFrontend"})
-Dispatch_RemoveL4Frontend == Arm({"RemoveTcpFrontend", "RemoveUdpFrontend"})
+Dispatch_AddListener == \E c \in Cmds : c.verb \in AddListenerVerbs /\ Step(c)
+Dispatch_RemoveListener == \E c \in Cmds : c.verb \in {"RemoveListener"} /\ Step(c)
+Dispatch_ActivateListener == \E c \in Cmds : c.verb \in {"ActivateListener"} /\ Step(c)
+Dispatch_DeactivateListener == \E c \in Cmds : c.verb \in {"DeactivateListener"} /\ Step(c)
+Dispatch_UpdateListener == \E c \in Cmds : c.verb \in UpdListenerVerbs /\ Step(c)
+Dispatch_AddCluster == \E c \in Cmds : c.verb \in {"AddCluster"} /\ Step(c)
+Dispatch_RemoveCluster == \E c \in Cmds : c.verb \in {"RemoveCluster"} /\ Step(c)
+Dispatch_SetHealthCheck == \E c \in Cmds : c.verb \in {"SetHealthCheck"} /\ Step(c)
+Dispatch_RemoveHealthCheck == \E c \in Cmds : c.verb \in {"RemoveHealthCheck"} /\ Step(c)
+Dispatch_AddBackend == \E c \in Cmds : c.verb \in {"AddBackend"} /\ Step(c)
+Dispatch_RemoveBackend == \E c \in Cmds : c.verb \in {"RemoveBackend"} /\ Step(c)
+Dispatch_AddFrontend == \E c \in Cmds : c.verb \in {"AddHttpFrontend", "AddHttpsFrontend"} /\ Step(c)
+Dispatch_RemoveFrontend == \E c \in Cmds : c.verb \in {"RemoveHttpFrontend", "RemoveHttpsFrontend"} /\ Step(c)
+Dispatch_AddCertificate == \E c \in Cmds : c.verb \in {"AddCertificate"} /\ Step(c)
+Dispatch_RemoveCertificate == \E c \in Cmds : c.verb \in {"RemoveCertificate"} /\ Step(c)
+Dispatch_ReplaceCertificate == \E c \in Cmds : c.verb \in {"ReplaceCertificate"} /\ Step(c)
+Dispatch_AddL4Frontend == \E c \in Cmds : c.verb \in {"AddTcpFrontend", "AddUdpFrontend"} /\ Step(c)
+Dispatch_RemoveL4Frontend == \E c \in Cmds : c.verb \in {"RemoveTcpFrontend", "RemoveUdpFrontend"} /\ Step(c)
 
 Init == st = Empty /\ tgt = Empty /\ hist = <<>>
 Next == \/ Dispatch_AddListener \/ Dispatch_RemoveListener \/ Dispatch_ActivateListener
